@@ -137,10 +137,14 @@ def _pyx_role(repo, f, n, name):
     """the three admitted roles of a builtin exception in the binding (none reachable from document content)."""
     if name == 'MemoryError':
         # on the zero-return edge of a libyaml initialiser
-        p = getattr(n, '_parent', None)
-        if isinstance(p, ast.If) and isinstance(p.test, ast.Compare) and norm(p.test.comparators[0]) == '0' \
-                and isinstance(p.test.left, ast.Call) and norm(p.test.left.func).startswith('yaml_'):
-            return True
+        for iff, branch in A.guarding_ifs(n, f.node):
+            if branch != 'body':
+                continue
+            for k in A.conjuncts(iff.test):
+                if isinstance(k, ast.Compare) and len(k.ops) == 1 and isinstance(k.ops[0], ast.Eq) \
+                        and isinstance(k.comparators[0], ast.Constant) and k.comparators[0].value == 0 \
+                        and isinstance(k.left, ast.Call) and norm(k.left.func).startswith('yaml_'):
+                    return True
         return False
     if name == 'TypeError':
         # type validation of a caller-supplied object right after a Py*_CheckExact test
@@ -371,7 +375,9 @@ def r_indent_pairing(ctx, repo):
         for c in A.func_calls(f.node):
             if isinstance(c.func, ast.Attribute) and c.func.attr == 'add_indent' and norm(c.func.value) == 'self':
                 p = getattr(c, '_parent', None)
-                if isinstance(p, ast.If) and p.test is c:
+                while isinstance(p, ast.BoolOp) and isinstance(p.op, ast.And):
+                    p = getattr(p, '_parent', None)
+                if isinstance(p, ast.If) and any(x is c for x in A.conjuncts(p.test)):
                     body = norm(p.body)
                     k = body.count('BlockSequenceStartToken(') + body.count('BlockMappingStartToken(')
                     if k == 1 and not p.orelse:
@@ -410,58 +416,81 @@ def r_error_map(ctx, repo):
         f = K.methods.get(fname)
         if f is None:
             raise AnalysisError('%s.%s has vanished' % (K.qualname, fname))
-        for ret in [n for n in walk_function(f.node) if isinstance(n, ast.Return) and n.value is not None]:
-            # which error kinds guard this return?
-            kinds = set()
-            p = ret
-            own = None
-            while p is not None and p is not f.node:
-                par = getattr(p, '_parent', None)
-                if isinstance(par, ast.If) and p in par.body:
-                    ks = [x.id for x in ast.walk(par.test) if isinstance(x, ast.Name) and x.id.startswith('YAML_') and x.id.endswith('_ERROR')]
-                    if own is None:
-                        own = ks
-                    kinds.update(ks if own is ks else [])
-                p = par
-            v = ret.value
-            target = v.func if isinstance(v, ast.Call) else v
-            r = repo.resolve_expr(f.module, target)
-            got = None
-            if r is not None and r.kind == 'class':
-                got = r.obj.qualname
-            elif r is not None and r.kind == 'ext':
-                got = r.obj.split('.')[-1]
-            # innermost test decides: for the nested scanner/parser split use the innermost enclosing if
-            inner = None
-            p = ret
-            while p is not None and p is not f.node and inner is None:
-                par = getattr(p, '_parent', None)
-                if isinstance(par, ast.If):
-                    ks = [x.id for x in ast.walk(par.test) if isinstance(x, ast.Name) and x.id.startswith('YAML_') and x.id.endswith('_ERROR')]
-                    if ks:
-                        if p in par.body:
-                            inner = ks
-                        else:
-                            # else branch of `== YAML_SCANNER_ERROR` inside the scanner|parser block
-                            outer = []
-                            q = par
-                            while q is not None and q is not f.node:
-                                qq = getattr(q, '_parent', None)
-                                if isinstance(qq, ast.If) and q in qq.body:
-                                    outer = [x.id for x in ast.walk(qq.test) if isinstance(x, ast.Name) and x.id.endswith('_ERROR')]
-                                    break
-                                q = qq
-                            inner = [k for k in outer if k not in ks]
-                p = par
-            wants = {expect.get(k) for k in (inner or [])}
-            if got is not None and wants == {got}:
-                rule.ok(f.loc(ret), '%s -> %s' % ('|'.join(inner), got))
+        cfg = CFG(f.node)
+        kinds = sorted({x.id for x in ast.walk(f.node) if isinstance(x, ast.Name) and x.id.startswith('YAML_')
+                        and x.id.endswith('_ERROR') and x.id in expect})
+        for K in kinds:
+            def atom(node, K=K):
+                # <something>.error == YAML_X_ERROR : the enum members are distinct, so exactly one of them holds
+                if isinstance(node, ast.Compare) and len(node.ops) == 1 and isinstance(node.ops[0], (ast.Eq, ast.NotEq)):
+                    l, r = node.left, node.comparators[0]
+                    if isinstance(l, ast.Name) and l.id.startswith('YAML_'):
+                        l, r = r, l
+                    if isinstance(r, ast.Name) and r.id.startswith('YAML_') and r.id.endswith('_ERROR') \
+                            and isinstance(l, ast.Attribute) and l.attr == 'error':
+                        v = (r.id == K)
+                        return v if isinstance(node.ops[0], ast.Eq) else (not v)
+                return None
+            reach = A.cfg_reach_under(cfg, atom)
+            got = set()
+            locs = []
+            for n in reach:
+                if n.kind == 'return' and n.ast is not None and n.ast.value is not None:
+                    v = n.ast.value
+                    target = v.func if isinstance(v, ast.Call) else v
+                    r = repo.resolve_expr(f.module, target)
+                    if r is not None and r.kind == 'class':
+                        got.add(r.obj.qualname)
+                    elif r is not None and r.kind == 'ext':
+                        got.add(r.obj.split('.')[-1])
+                    else:
+                        got.add(norm(target))
+                    locs.append(n.ast)
+            if got == {expect[K]}:
+                rule.ok(f.loc(locs[0]), '%s -> %s' % (K, expect[K]))
             else:
-                rule.fail('%s|%s|%s' % (f.qualname, '|'.join(inner or []), got), f.module.rel, ret.lineno, f.qualname,
-                          norm(ret)[:80], 'libyaml error kind %s is turned into %s; the Python back-end raises %s for the '
-                          'same class of input' % ('|'.join(inner or ['?']), got, sorted(w for w in wants if w)))
+                line = locs[0].lineno if locs else f.node.lineno
+                rule.fail('%s|%s|%s' % (f.qualname, K, '|'.join(sorted(got))), f.module.rel, line, f.qualname,
+                          norm(locs[0])[:80] if locs else fname,
+                          'libyaml error kind %s is turned into %s; the Python back-end raises %s for the same class of input'
+                          % (K, sorted(got) or 'nothing', expect[K]))
     rule.require_min(5, 'error mappings')
     return rule
+
+
+def _failure_checked(f, c):
+    """the zero result of the libyaml call c is tested and the failing edge raises: `if ... and c == 0: raise`, `if not c:
+    raise`, or the same through a local that holds the result."""
+    def zero_test(e, subject):
+        """does expression e being true imply subject == 0 ?"""
+        for k in A.conjuncts(e):
+            if isinstance(k, ast.Compare) and len(k.ops) == 1 and isinstance(k.ops[0], ast.Eq):
+                l, r = k.left, k.comparators[0]
+                if (subject(l) and isinstance(r, ast.Constant) and r.value == 0) or \
+                        (subject(r) and isinstance(l, ast.Constant) and l.value == 0):
+                    return True
+            if isinstance(k, ast.UnaryOp) and isinstance(k.op, ast.Not) and subject(k.operand):
+                return True
+        return False
+
+    def raises(stmts):
+        return bool(stmts) and (isinstance(stmts[-1], ast.Raise) or any(isinstance(s, ast.Raise) for s in stmts))
+
+    # direct: the call sits inside the test of an if
+    p = c
+    while p is not None and not isinstance(p, ast.stmt):
+        p = getattr(p, '_parent', None)
+    if isinstance(p, ast.If) and any(x is c for x in ast.walk(p.test)):
+        if zero_test(p.test, lambda e: e is c) and raises(p.body):
+            return True
+    # through a local: r = call(...); if r == 0: raise
+    if isinstance(p, ast.Assign) and p.value is c and len(p.targets) == 1 and isinstance(p.targets[0], ast.Name):
+        name = p.targets[0].id
+        for n in walk_function(f.node):
+            if isinstance(n, ast.If) and n.lineno >= p.lineno and \
+                    zero_test(n.test, lambda e: isinstance(e, ast.Name) and e.id == name) and raises(n.body):
+                return True
+    return False
 
 
 def r_pyx_except_clause(ctx, repo):
@@ -493,13 +522,7 @@ def r_pyx_except_clause(ctx, repo):
         for c in A.func_calls(f.node):
             fn = norm(c.func)
             if fn in FALLIBLE:
-                p = getattr(c, '_parent', None)
-                ok = False
-                if isinstance(p, ast.Compare) and p.left is c and len(p.ops) == 1 and isinstance(p.ops[0], ast.Eq) \
-                        and norm(p.comparators[0]) == '0':
-                    pp = getattr(p, '_parent', None)
-                    if isinstance(pp, ast.If) and pp.test is p and any(isinstance(s, ast.Raise) for s in pp.body):
-                        ok = True
+                ok = _failure_checked(f, c)
                 if ok:
                     checked += 1
                     rule.ok(f.loc(c), '%s(...) == 0 -> raise' % fn)
